@@ -149,18 +149,20 @@ def install(eng):
         return [(st, VNone), (s_exc, Raised(eng_.fresh_exception(s_exc, Exception)))]
     eng.obj_methods[("Connection", "process_packet")] = process_packet
 
+    def box_facts(eng_, st, ref, bxa):
+        """The opaque view of an exception object built here exposes its received_name attribute."""
+        if "received_name" in st.heap[ref.oid].f:
+            rn = st.heap[ref.oid].f["received_name"]
+            for g, a in (rn.alts if isinstance(rn, VUnion) else [(z3.BoolVal(True), rn)]):
+                if isinstance(a, VStr):
+                    st.fact(z3.Implies(g, z3.And(has_name_f(bxa), recv_name_f(bxa) == a.e)))
+                else:
+                    st.fact(z3.Implies(g, z3.Not(has_name_f(bxa))))
+    eng.hooks["box_facts"] = box_facts
+
     def report_fatal_error(eng_, st, recv, args, kwargs):
         ex = args[0]
         bx = box(eng_, st, ex)
-        for gx, ax in (ex.alts if isinstance(ex, VUnion) else [(z3.BoolVal(True), ex)]):
-            if isinstance(ax, VRef) and "received_name" in st.heap[ax.oid].f:
-                bxa = box(eng_, st, ax)
-                rn = st.heap[ax.oid].f["received_name"]
-                for g, a in (rn.alts if isinstance(rn, VUnion) else [(z3.BoolVal(True), rn)]):
-                    if isinstance(a, VStr):
-                        st.fact(z3.Implies(g, z3.And(has_name_f(bxa), recv_name_f(bxa) == a.e)))
-                    else:
-                        st.fact(z3.Implies(g, z3.Not(has_name_f(bxa))))
         ghost_append(eng_, st, "reported", VObj(bx, "Exception"))
         reentrant_close(eng_, st)
         return ok(st, VNone)
@@ -302,6 +304,7 @@ MONO = ("state-only-advances", "self._state >= old(self._state) and self._state 
 VALID = ("state-valid", "self._state >= 1 and self._state <= 4 and iff(self._transport is None, self._writer is None) and "
                         "implies(self._state == 3, self._decrypt_cipher is not None and self._encrypt_cipher is not None and self._decrypt_cipher._nonce >= 0)")
 NO_DELIVERY = ("delivers-nothing", "ghost.packets == old(ghost.packets)")
+KEEPS_NAME = ("server-name-kept", "self._server_name == old(self._server_name)")
 
 
 def handle_error_contract():
@@ -321,7 +324,7 @@ def handle_error_contract():
             P("C04", "a-pending-readiness-wait-receives-the-same-error",
               "implies(not old(fdone(self.ready_future)), fdone(self.ready_future) and has_exc(self.ready_future) and fexc(self.ready_future) is last_reported())"),
             ("completed-wait-untouched", "implies(old(fdone(self.ready_future)), fdone(self.ready_future) and fexc(self.ready_future) is old(fexc(self.ready_future)))"),
-            MONO, VALID, NO_DELIVERY,
+            MONO, VALID, NO_DELIVERY, KEEPS_NAME,
         ],
         modifies=FRAME_MODS,
     )
@@ -336,7 +339,7 @@ def close_contract():
             P("C04", "a-pending-readiness-wait-is-failed", "fdone(self.ready_future) and implies(not old(fdone(self.ready_future)), "
                                                            "has_exc(self.ready_future) and typeof_is(fexc(self.ready_future), APIConnectionError))"),
             ("reports-nothing", "ghost.reported == old(ghost.reported)"), NO_DELIVERY,
-            VALID,
+            VALID, KEEPS_NAME,
             ("completed-wait-untouched", "implies(old(fdone(self.ready_future)), fexc(self.ready_future) is old(fexc(self.ready_future)))"),
         ],
         modifies=FRAME_MODS,
@@ -352,7 +355,7 @@ def handle_error_and_close_contract():
             ("prefix", "ghost.reported[:len(old(ghost.reported))] == old(ghost.reported)"),
             ("ready-failed", "fdone(self.ready_future) and implies(not old(fdone(self.ready_future)), has_exc(self.ready_future) and "
                              "implies(not typeof_is(exc, InvalidTag) and not typeof_is(exc, ConnectionResetError), fexc(self.ready_future) is exc))"),
-            MONO, VALID, NO_DELIVERY,
+            MONO, VALID, NO_DELIVERY, KEEPS_NAME,
         ],
         modifies=FRAME_MODS,
     )
